@@ -60,20 +60,68 @@ Definition sub_ok (vr : variant) (b : sub) : Prop :=
   (fwd b = Exited -> registered b = false) /\
   (fwd b = Exited -> accepted b = true -> user_closed b = true).
 
-Record Inv (vr : variant) (s : st) : Prop := {
-  i_subs : Forall (sub_ok vr) (subs s);
-  i_closed : closed s = true <-> (cl s = CWaitFwd \/ cl s = CReturned);
-  i_dead : loop_dead s = true <-> (cl s = CWantLock \/ cl s = CWaitFwd \/ cl s = CReturned);
-  i_stop : cl s <> CNone -> qstopped s = true;
-  i_idle : loop_dead s = true -> proc s = PIdle;
-  i_lock : forall v idx, lock s = Exec v idx -> proc s = PCall v;
-  i_ret : cl s = CReturned -> Forall (fun b => fwd b = Exited) (subs s)
+Lemma In_upd_nth {A} j (y : A) l x : In x (upd_nth j y l) -> x = y \/ In x l.
+Proof.
+  revert j; induction l as [|h t IH]; intros [|j] H; cbn in *; auto.
+  - destruct H as [H|H]; auto.
+  - destruct H as [H|H]; auto. destruct (IH _ H); auto.
+Qed.
+
+Lemma In_upd_nth_keep {A} j (y z : A) l x :
+  In x l -> nth_error l j = Some z -> x <> z -> In x (upd_nth j y l).
+Proof.
+  revert j; induction l as [|h t IH]; intros [|j] Hin Hn Hne; cbn in *; try discriminate.
+  - inversion Hn; subst. destruct Hin as [H|H]; [congruence|auto].
+  - destruct Hin as [H|H]; [left; exact H|right; eapply IH; eauto].
+Qed.
+
+(* a Close call — the first or a later one — has returned *)
+Definition any_returned (s : st) : Prop :=
+  cl s = CReturned \/ exists id, In (id, K2Returned) (cl2 s).
+Definition all_exited (s : st) : Prop := Forall (fun b => fwd b = Exited) (subs s).
+Definition k2_locked (c : close2pc) : bool :=
+  match c with K2WaitFwd | K2Returned => true | _ => false end.
+
+(* control part: flags and program counters *)
+Record Ctl (s : st) : Prop := {
+  c_closed1 : cl s = CWaitFwd \/ cl s = CReturned -> closed s = true;
+  c_closed2 : forall id c, In (id, c) (cl2 s) -> k2_locked c = true -> closed s = true;
+  c_cdead : closed s = true -> loop_dead s = true;
+  c_dead : loop_dead s = true <-> (cl s = CWantLock \/ cl s = CWaitFwd \/ cl s = CReturned);
+  c_dead2 : forall id c, In (id, c) (cl2 s) -> c <> K2WaitLoop -> loop_dead s = true;
+  c_stop : cl s <> CNone -> qstopped s = true;
+  c_idle : loop_dead s = true -> proc s = PIdle;
+  c_lock : forall v idx, lock s = Exec v idx -> proc s = PCall v;
+  c_cl2 : cl s = CNone -> cl2 s = []
 }.
+
+Record Inv (vr : variant) (s : st) : Prop := {
+  i_ctl : Ctl s;
+  i_subs : Forall (sub_ok vr) (subs s);
+  i_ret : any_returned s -> all_exited s
+}.
+
+Lemma Ctl_frame s s' :
+  cl s' = cl s -> cl2 s' = cl2 s -> closed s' = closed s -> loop_dead s' = loop_dead s ->
+  qstopped s' = qstopped s -> proc s' = proc s -> lock s' = lock s -> Ctl s -> Ctl s'.
+Proof.
+  intros E1 E2 E3 E4 E5 E6 E7 [H1 H2 H3 H4 H5 H6 H7 H8 H9].
+  constructor; rewrite ?E1, ?E2, ?E3, ?E4, ?E5, ?E6, ?E7; auto.
+Qed.
+
+Lemma returned_closed s : Ctl s -> any_returned s -> closed s = true.
+Proof.
+  intros HC [H|[id H]].
+  - apply (c_closed1 _ HC); auto.
+  - apply (c_closed2 _ HC id K2Returned); auto.
+Qed.
 
 Lemma inv_init vr : Inv vr init.
 Proof.
-  constructor; cbn; try constructor; try tauto; try discriminate;
-    intros; repeat match goal with H : _ \/ _ |- _ => destruct H end; try discriminate; tauto.
+  constructor; [constructor|constructor|]; cbn; try tauto; try discriminate.
+  - intros H; destruct H; discriminate.
+  - split; [discriminate|]. intros [H|[H|H]]; discriminate.
+  - intros [H|[id []]]. discriminate.
 Qed.
 
 (* events that only rewrite one subscriber record *)
@@ -83,28 +131,39 @@ Lemma inv_with_sub vr s i g s' :
      sub_ok vr b' /\ (fwd b = Exited -> fwd b' = Exited)) ->
   Inv vr s'.
 Proof.
-  intros [HS HC HD HQ HI HL HR] Hw Hg.
+  intros [HC HS HR] Hw Hg.
   apply with_sub_inv in Hw as (b & b' & Hn & Hgb & ->).
   destruct (Hg b b' Hn Hgb (Forall_nth_error _ _ _ _ HS Hn)) as [Hok Hex].
-  constructor; cbn; auto.
-  - apply Forall_upd_nth; auto.
-  - intros Hc. specialize (HR Hc). apply Forall_upd_nth; [exact HR|].
-    apply Hex. exact (Forall_nth_error _ _ _ _ HR Hn).
+  constructor.
+  - eapply Ctl_frame; [..|exact HC]; reflexivity.
+  - cbn. apply Forall_upd_nth; auto.
+  - intros Hc. specialize (HR Hc). unfold all_exited in *. cbn.
+    apply Forall_upd_nth; [exact HR|]. apply Hex. exact (Forall_nth_error _ _ _ _ HR Hn).
 Qed.
 
 Ltac inv_some :=
   cbv beta in *; match goal with H : Some _ = Some _ |- _ => inversion H; subst; clear H end.
 
+(* events that leave subscribers and all Close program counters alone *)
+Lemma inv_same_subs vr s s' :
+  Inv vr s -> subs s' = subs s -> cl s' = cl s -> cl2 s' = cl2 s -> Ctl s' -> Inv vr s'.
+Proof.
+  intros [HC HS HR] E1 E2 E3 HC'. constructor; auto.
+  - rewrite E1; auto.
+  - unfold any_returned, all_exited. rewrite E1, E2, E3. exact HR.
+Qed.
+
 Lemma inv_step vr iv s e s' : Inv vr s -> step vr iv s e = Some s' -> Inv vr s'.
 Proof.
-  intros HI Hs. destruct e; unfold step in Hs.
+  intros HI Hs. pose proof (i_ctl _ _ HI) as HC. destruct e; unfold step in Hs.
   - (* Batch *)
-    destruct (qstopped s) eqn:Hq; inv_some; (destruct HI as [HS HC HD HQ HId HL HR]; constructor); cbn; auto;
-      intros H; specialize (HQ H); congruence.
+    destruct (qstopped s) eqn:Hq; inv_some; auto.
+    eapply inv_same_subs; eauto. eapply Ctl_frame; [..|exact HC]; reflexivity.
   - (* Advance *)
-    destruct (d <? 0)%Z; [discriminate|]. inv_some. destruct HI as [HS HC HD HQ HId HL HR]. constructor; cbn; auto.
+    destruct (d <? 0)%Z; [discriminate|]. inv_some.
+    eapply inv_same_subs; eauto. eapply Ctl_frame; [..|exact HC]; reflexivity.
   - (* SubscribeCall *)
-    inv_some. destruct HI as [HS HC HD HQ HId HL HR]. constructor; cbn; auto.
+    inv_some. eapply inv_same_subs; eauto. eapply Ctl_frame; [..|exact HC]; reflexivity.
   - (* Cancel *) eapply inv_with_sub; eauto. intros b b' _ Hg Hok; cbv beta in Hg. inv_some.
     unfold sub_ok in *; cbn; tauto.
   - (* Want *) eapply inv_with_sub; eauto. intros b b' _ Hg Hok; cbv beta in Hg. inv_some.
@@ -113,56 +172,63 @@ Proof.
     unfold sub_ok in *; cbn; tauto.
   - (* CloseCall *)
     destruct (cl s) eqn:Hcl; try discriminate. inv_some.
-    destruct HI as [HS HC HD HQ HId HL HR]. constructor; cbn; auto.
-    + rewrite HC. split; intros [H|H]; congruence.
-    + rewrite HD. split; intros [H|[H|H]]; congruence.
-    + congruence.
+    destruct HI as [_ HS HR]. destruct HC as [H1 H2 H3 H4 H5 H6 H7 H8 H9].
+    assert (E2 : cl2 s = []) by auto.
+    constructor; [constructor|exact HS|]; cbn; rewrite ?E2; auto.
+    + intros [H|H]; discriminate.
+    + rewrite H4, Hcl. split; intros [H|[H|H]]; discriminate.
+    + intros [H|[id H]]; [discriminate|]. cbn in H. rewrite E2 in H. destruct H.
   - (* Pop *)
     destruct (proc s) eqn:Hp; try discriminate.
     destruct (loop_dead s) eqn:Hld; try discriminate.
     destruct (plookup k (pending s)) as [p|]; try discriminate.
     destruct (_ && _); try discriminate. inv_some.
-    destruct HI as [HS HC HD HQ HId HL HR]. constructor; cbn; auto.
+    eapply inv_same_subs; eauto.
+    destruct HC as [H1 H2 H3 H4 H5 H6 H7 H8 H9]. constructor; cbn; auto.
     + rewrite Hld. discriminate.
-    + intros v idx Hl. specialize (HL v idx Hl). congruence.
+    + intros v idx Hl. specialize (H8 v idx Hl). congruence.
   - (* ExecBegin *)
     destruct (proc s) eqn:Hp; try discriminate.
     destruct (lock s) eqn:Hl; try discriminate.
-    destruct (closed s) eqn:Hc; inv_some; (destruct HI as [HS HC HD HQ HId HL HR]; constructor); cbn; auto.
+    destruct (closed s) eqn:Hc; inv_some; (eapply inv_same_subs; eauto);
+      destruct HC as [H1 H2 H3 H4 H5 H6 H7 H8 H9]; constructor; cbn; auto.
     + intros v0 idx H; congruence.
     + intros v0 idx H; inversion H; subst; auto.
   - (* ExecSend *)
     destruct (lock s) as [|v idx] eqn:Hl; try discriminate.
     destruct (nth_error (subs s) idx) as [b|] eqn:Hn; try discriminate.
     destruct (_ && _); try discriminate. inv_some.
-    destruct HI as [HS HC HD HQ HId HL HR].
-    pose proof (Forall_nth_error _ _ _ _ HS Hn) as Hok.
-    constructor; cbn; auto.
-    + apply Forall_upd_nth; auto; unfold sub_ok in *; cbn; tauto.
-    + intros v0 idx0 H; inversion H; subst; eauto.
-    + intros Hc. specialize (HR Hc). apply Forall_upd_nth; [exact HR|]. cbn.
-      exact (Forall_nth_error _ _ _ _ HR Hn).
+    destruct HI as [_ HS HR]. pose proof (Forall_nth_error _ _ _ _ HS Hn) as Hok.
+    constructor.
+    + destruct HC as [H1 H2 H3 H4 H5 H6 H7 H8 H9]. constructor; cbn; auto.
+      intros v0 idx0 H; inversion H; subst; eauto.
+    + cbn. apply Forall_upd_nth; auto; unfold sub_ok in *; cbn; tauto.
+    + intros Hc. specialize (HR Hc). unfold all_exited in *. cbn.
+      apply Forall_upd_nth; [exact HR|]. cbn. exact (Forall_nth_error _ _ _ _ HR Hn).
   - (* ExecSkip *)
     destruct (lock s) as [|v idx] eqn:Hl; try discriminate.
     destruct (nth_error (subs s) idx) as [b|] eqn:Hn; try discriminate.
     destruct (_ && _); try discriminate. inv_some.
-    destruct HI as [HS HC HD HQ HId HL HR].
-    pose proof (Forall_nth_error _ _ _ _ HS Hn) as Hok.
-    constructor; cbn; auto.
-    + apply Forall_upd_nth; auto; unfold sub_ok in *; cbn; tauto.
-    + intros v0 idx0 H; inversion H; subst; eauto.
-    + intros Hc. specialize (HR Hc). apply Forall_upd_nth; [exact HR|]. cbn.
-      exact (Forall_nth_error _ _ _ _ HR Hn).
+    destruct HI as [_ HS HR]. pose proof (Forall_nth_error _ _ _ _ HS Hn) as Hok.
+    constructor.
+    + destruct HC as [H1 H2 H3 H4 H5 H6 H7 H8 H9]. constructor; cbn; auto.
+      intros v0 idx0 H; inversion H; subst; eauto.
+    + cbn. apply Forall_upd_nth; auto; unfold sub_ok in *; cbn; tauto.
+    + intros Hc. specialize (HR Hc). unfold all_exited in *. cbn.
+      apply Forall_upd_nth; [exact HR|]. cbn. exact (Forall_nth_error _ _ _ _ HR Hn).
   - (* ExecPass *)
     destruct (lock s) as [|v idx] eqn:Hl; try discriminate.
     destruct (nth_error (subs s) idx) as [b|] eqn:Hn; try discriminate.
     destruct (registered b); try discriminate. inv_some.
-    destruct HI as [HS HC HD HQ HId HL HR]. constructor; cbn; auto.
+    eapply inv_same_subs; eauto.
+    destruct HC as [H1 H2 H3 H4 H5 H6 H7 H8 H9]. constructor; cbn; auto.
     intros v0 idx0 H; inversion H; subst; eauto.
   - (* ExecEnd *)
     destruct (lock s) as [|v idx] eqn:Hl; try discriminate.
     destruct (nth_error (subs s) idx) as [b|] eqn:Hn; try discriminate. inv_some.
-    destruct HI as [HS HC HD HQ HId HL HR]. constructor; cbn; auto. intros v0 idx0 H; discriminate.
+    eapply inv_same_subs; eauto.
+    destruct HC as [H1 H2 H3 H4 H5 H6 H7 H8 H9]. constructor; cbn; auto.
+    intros v0 idx0 H; discriminate.
   - (* FwdTake *) eapply inv_with_sub; eauto. intros b b' _ Hg Hok; cbv beta in Hg.
     destruct (fwd b) eqn:Hf; try discriminate. destruct (buf b); try discriminate. inv_some.
     unfold sub_ok in *; cbn. repeat split; intros; discriminate.
@@ -185,32 +251,80 @@ Proof.
   - (* SubscribeLocked *)
     destruct (lock s) eqn:Hl; try discriminate.
     destruct (nth_error (pend_subs s) j) as [[id p]|]; try discriminate. inv_some.
-    destruct HI as [HS HC HD HQ HId HL HR]. constructor; cbn; auto.
-    + apply Forall_app; split; auto. constructor; [|constructor].
+    destruct HI as [_ HS HR]. constructor.
+    + eapply Ctl_frame; [..|exact HC]; reflexivity.
+    + cbn. apply Forall_app; split; auto. constructor; [|constructor].
       destruct (closed s); unfold sub_ok; cbn; repeat split; intros; try discriminate; auto.
-    + intros Hc. apply Forall_app; split; auto. constructor; [|constructor].
-      assert (closed s = true) as -> by (apply HC; auto). reflexivity.
+    + intros Hc. assert (Hc0 : any_returned s) by exact Hc.
+      unfold all_exited. cbn. apply Forall_app; split; [exact (HR Hc0)|].
+      constructor; [|constructor]. rewrite (returned_closed _ HC Hc0). reflexivity.
   - (* CloseLoopDone *)
     destruct (cl s) eqn:Hcl; try discriminate. destruct (proc s) eqn:Hp; try discriminate.
-    inv_some. destruct HI as [HS HC HD HQ HId HL HR]. constructor; cbn; auto.
-    + rewrite HC. split; intros [H|H]; congruence.
+    inv_some. destruct HI as [_ HS HR]. destruct HC as [H1 H2 H3 H4 H5 H6 H7 H8 H9].
+    constructor; [constructor|exact HS|]; cbn; auto.
+    + intros [H|H]; discriminate.
     + split; auto.
-    + intros _; apply HQ; congruence.
-    + congruence.
+    + intros _. apply H6. congruence.
+    + discriminate.
+    + intros [H|H]; [discriminate|]. apply HR. right. exact H.
   - (* CloseLock *)
     destruct (cl s) eqn:Hcl; try discriminate. destruct (lock s) eqn:Hl; try discriminate.
-    inv_some. destruct HI as [HS HC HD HQ HId HL HR]. constructor; cbn; auto.
-    + split; auto.
-    + rewrite HD. split; auto.
-    + intros _; apply HQ; congruence.
-    + congruence.
+    inv_some. destruct HI as [_ HS HR]. destruct HC as [H1 H2 H3 H4 H5 H6 H7 H8 H9].
+    assert (Hd : loop_dead s = true) by (apply H4; auto).
+    constructor; [constructor|exact HS|]; cbn; auto.
+    + rewrite Hd. split; auto.
+    + intros _. apply H6. congruence.
+    + discriminate.
+    + intros [H|H]; [discriminate|]. apply HR. right. exact H.
   - (* CloseWait *)
     destruct (cl s) eqn:Hcl; try discriminate.
     destruct (forallb _ _) eqn:Hall; try discriminate. inv_some.
-    destruct HI as [HS HC HD HQ HId HL HR]. constructor; cbn; auto.
-    + rewrite HC. split; auto.
-    + rewrite HD. split; auto.
-    + intros _; apply HQ; congruence.
+    destruct HI as [_ HS HR]. destruct HC as [H1 H2 H3 H4 H5 H6 H7 H8 H9].
+    assert (Hd : loop_dead s = true) by (apply H4; auto).
+    constructor; [constructor|exact HS|]; cbn; auto.
+    + rewrite Hd. split; auto.
+    + intros _. apply H6. congruence.
+    + discriminate.
+    + intros _. rewrite forallb_forall in Hall. apply Forall_forall. intros b Hb.
+      specialize (Hall b Hb). destruct (fwd b); try discriminate; auto.
+  - (* Close2Call *)
+    destruct (cl s) eqn:Hcl; try discriminate; inv_some;
+      destruct HI as [_ HS HR]; destruct HC as [H1 H2 H3 H4 H5 H6 H7 H8 H9];
+      (constructor; [constructor|exact HS|]; cbn; rewrite ?Hcl in *; auto;
+       try (intros id0 c Hin; apply in_app_or in Hin as [Hin|[Hin|[]]];
+            [eauto|inversion Hin; subst; cbn; intros; try discriminate; congruence]);
+       try discriminate;
+       try (intros [H|[id0 H]]; [apply HR; left; exact H|];
+            apply in_app_or in H as [H|[H|[]]]; [apply HR; right; eauto|discriminate])).
+  - (* Close2LoopDone *)
+    destruct (nth_error (cl2 s) j) as [[id c]|] eqn:Hn; try discriminate.
+    destruct c; try discriminate. destruct (loop_dead s) eqn:Hd; try discriminate. inv_some.
+    destruct HI as [_ HS HR]. destruct HC as [H1 H2 H3 H4 H5 H6 H7 H8 H9].
+    constructor; [constructor|exact HS|]; cbn; auto.
+    + intros id0 c Hin. apply In_upd_nth in Hin as [Hin|Hin]; [inversion Hin; subst; discriminate|eauto].
+    + intros Hc. specialize (H9 Hc). rewrite H9 in Hn. destruct j; discriminate.
+    + intros [H|[id0 H]]; [apply HR; left; exact H|].
+      apply In_upd_nth in H as [H|H]; [discriminate|]. apply HR; right; eauto.
+  - (* Close2Lock *)
+    destruct (nth_error (cl2 s) j) as [[id c]|] eqn:Hn; try discriminate.
+    destruct c; try discriminate. destruct (lock s) eqn:Hl; try discriminate. inv_some.
+    destruct HI as [_ HS HR]. destruct HC as [H1 H2 H3 H4 H5 H6 H7 H8 H9].
+    assert (Hd : loop_dead s = true).
+    { apply (H5 id K2WantLock); [eapply nth_error_In; eauto|discriminate]. }
+    constructor; [constructor|exact HS|]; cbn; auto.
+    + intros Hc. specialize (H9 Hc). rewrite H9 in Hn. destruct j; discriminate.
+    + intros [H|[id0 H]]; [apply HR; left; exact H|].
+      apply In_upd_nth in H as [H|H]; [discriminate|]. apply HR; right; eauto.
+  - (* Close2Wait *)
+    destruct (nth_error (cl2 s) j) as [[id c]|] eqn:Hn; try discriminate.
+    destruct c; try discriminate.
+    destruct (forallb _ _) eqn:Hall; try discriminate. inv_some.
+    destruct HI as [_ HS HR]. destruct HC as [H1 H2 H3 H4 H5 H6 H7 H8 H9].
+    pose proof (nth_error_In _ _ Hn) as Hin0.
+    constructor; [constructor|exact HS|]; cbn; auto.
+    + intros id0 c Hin _. apply (H2 id K2WaitFwd); auto.
+    + intros id0 c Hin _. apply (H5 id K2WaitFwd); auto. discriminate.
+    + intros Hc. specialize (H9 Hc). rewrite H9 in Hn. destruct j; discriminate.
     + intros _. rewrite forallb_forall in Hall. apply Forall_forall. intros b Hb.
       specialize (Hall b Hb). destruct (fwd b); try discriminate; auto.
 Qed.
@@ -239,7 +353,8 @@ Qed.
 
 (* nothing in progress: lock free, no callback running, no Subscribe or Close call pending *)
 Definition at_rest (s : st) : Prop :=
-  lock s = Free /\ proc s = PIdle /\ pend_subs s = [] /\ (cl s = CNone \/ cl s = CReturned).
+  lock s = Free /\ proc s = PIdle /\ pend_subs s = [] /\ (cl s = CNone \/ cl s = CReturned) /\
+  (forall id c, In (id, c) (cl2 s) -> c = K2Returned).
 
 (* a fan-out is blocked on subscriber [idx], which is still subscribed, whose context has NOT
    ended (and the batcher is not closed), whose buffer is full, whose forwarder is blocked handing
@@ -259,7 +374,7 @@ Qed.
 Theorem no_wedge : forall iv s,
   reachable Fixed iv s -> stuck Fixed iv s -> at_rest s \/ blocked_on_live s.
 Proof.
-  intros iv s HR Hst. pose proof (inv_reachable _ _ _ HR) as [HS HC HD HQ HId HL HRet].
+  intros iv s HR Hst. pose proof (inv_reachable _ _ _ HR) as [HCtl HS HRet].
   destruct (lock s) as [|v idx] eqn:Hl.
   - (* lock free *) left.
     assert (Hps : pend_subs s = []).
@@ -270,16 +385,9 @@ Proof.
     { destruct (proc s) as [|v] eqn:Hp; auto.
       pose proof (Hst ExecBegin eq_refl) as H. unfold step in H. rewrite Hp, Hl in H.
       destruct (closed s); discriminate. }
-    repeat split; auto.
-    destruct (cl s) eqn:Hcl; auto; exfalso.
-    + pose proof (Hst CloseLoopDone eq_refl) as H. unfold step in H. rewrite Hcl, Hpr in H.
-      discriminate.
-    + pose proof (Hst CloseLock eq_refl) as H. unfold step in H. rewrite Hcl, Hl in H.
-      discriminate.
-    + assert (Hc : closed s = true) by (apply HC; auto).
-      pose proof (Hst CloseWait eq_refl) as H. unfold step in H. rewrite Hcl in H.
-      destruct (forallb (fun b => is_exited (fwd b)) (subs s)) eqn:Hall; [discriminate|].
-      clear H. apply Bool.not_true_iff_false in Hall. apply Hall. apply forallb_forall.
+    (* once the batcher is closed and the lock is free, every forwarder gets out *)
+    assert (Hout : closed s = true -> forallb (fun b => is_exited (fwd b)) (subs s) = true).
+    { intros Hc. apply forallb_forall.
       intros b Hb. apply In_nth_error in Hb as [i Hi].
       destruct (fwd b) as [|w| |] eqn:Hf; auto; exfalso.
       * pose proof (Hst (FwdSeeDone i) eq_refl) as H. unfold step in H.
@@ -289,7 +397,31 @@ Proof.
         eapply with_sub_none in H; eauto. cbv beta in H. rewrite Hf in H.
         unfold departing in H. rewrite Hc, Bool.orb_true_r in H. discriminate.
       * pose proof (Hst (FwdExitLocked i) eq_refl) as H. unfold step in H. rewrite Hl in H.
-        eapply with_sub_none in H; eauto. cbv beta in H. rewrite Hf in H. discriminate.
+        eapply with_sub_none in H; eauto. cbv beta in H. rewrite Hf in H. discriminate. }
+    assert (Hcl1 : cl s = CNone \/ cl s = CReturned).
+    { destruct (cl s) eqn:Hcl; auto; exfalso.
+      + pose proof (Hst CloseLoopDone eq_refl) as H. unfold step in H. rewrite Hcl, Hpr in H.
+        discriminate.
+      + pose proof (Hst CloseLock eq_refl) as H. unfold step in H. rewrite Hcl, Hl in H.
+        discriminate.
+      + assert (Hc : closed s = true) by (apply (c_closed1 _ HCtl); auto).
+        pose proof (Hst CloseWait eq_refl) as H. unfold step in H. rewrite Hcl, (Hout Hc) in H.
+        discriminate. }
+    repeat split; auto.
+    (* the further Close calls *)
+    intros id c Hin. apply In_nth_error in Hin as [j Hj].
+    destruct c; auto; exfalso.
+    + assert (Hd : loop_dead s = true).
+      { apply (c_dead _ HCtl). destruct Hcl1 as [Hn|Hr]; auto.
+        rewrite (c_cl2 _ HCtl Hn) in Hj. destruct j; discriminate. }
+      pose proof (Hst (Close2LoopDone j) eq_refl) as H. unfold step in H. rewrite Hj, Hd in H.
+      discriminate.
+    + pose proof (Hst (Close2Lock j) eq_refl) as H. unfold step in H. rewrite Hj, Hl in H.
+      discriminate.
+    + assert (Hc : closed s = true).
+      { apply (c_closed2 _ HCtl id K2WaitFwd); auto. eapply nth_error_In; eauto. }
+      pose proof (Hst (Close2Wait j) eq_refl) as H. unfold step in H. rewrite Hj, (Hout Hc) in H.
+      discriminate.
   - (* a fan-out holds the lock *) right.
     destruct (nth_error (subs s) idx) as [b|] eqn:Hn.
     2:{ pose proof (Hst ExecEnd eq_refl) as H. unfold step in H. rewrite Hl, Hn in H.
@@ -369,7 +501,7 @@ Proof.
   intros Hw Hg. apply with_sub_inv in Hw as (b & b' & Hn & Hgb & ->).
   specialize (Hg _ _ Hgb).
   pose proof (list_sum_upd_nth sub_cost i b b' (subs s) Hn) as Hsum.
-  unfold measure, exec_cost, total_subs. cbn [pending subs lock proc pend_subs cl set_subs].
+  unfold measure, exec_cost, total_subs. cbn [pending subs lock proc pend_subs cl cl2 set_subs].
   rewrite length_upd_nth. lia.
 Qed.
 
@@ -384,7 +516,7 @@ Proof.
     destruct (_ && _); try discriminate. inv_some.
     apply premove_shorter in Hlk.
     unfold measure, exec_cost, total_subs.
-    cbn [pending subs lock proc pend_subs cl set_fired set_pending set_proc].
+    cbn [pending subs lock proc pend_subs cl cl2 set_fired set_pending set_proc].
     rewrite Hp. set (T := (length (subs s) + length (pend_subs s))%nat).
     set (a' := length (premove k (pending s))) in *. set (a := length (pending s)) in *.
     assert ((a' + 1) * (3 * T + 3) <= a * (3 * T + 3))%nat by (apply Nat.mul_le_mono_r; lia).
@@ -393,7 +525,7 @@ Proof.
     destruct (proc s) eqn:Hp; try discriminate.
     destruct (lock s) eqn:Hl; try discriminate.
     destruct (closed s); inv_some; unfold measure, exec_cost, total_subs;
-      cbn [pending subs lock proc pend_subs cl set_proc set_fanout set_lock];
+      cbn [pending subs lock proc pend_subs cl cl2 set_proc set_fanout set_lock];
       rewrite ?Hp, ?Hl; lia.
   - (* ExecSend *)
     destruct (lock s) as [|v idx] eqn:Hl; try discriminate.
@@ -404,7 +536,7 @@ Proof.
     assert (Hc : sub_cost (sb_buf b (buf b ++ [v])) = (sub_cost b + 2)%nat).
     { unfold sub_cost. cbn [buf fwd closed_seen sb_buf]. rewrite app_length. cbn. lia. }
     unfold measure, exec_cost, total_subs.
-    cbn [pending subs lock proc pend_subs cl set_subs set_lock].
+    cbn [pending subs lock proc pend_subs cl cl2 set_subs set_lock].
     rewrite length_upd_nth, Hl. lia.
   - (* ExecSkip *)
     destruct (lock s) as [|v idx] eqn:Hl; try discriminate.
@@ -414,7 +546,7 @@ Proof.
     assert (Hlt : (idx < length (subs s))%nat) by (apply nth_error_Some; congruence).
     assert (Hc : sub_cost (sb_gap b true) = sub_cost b) by reflexivity.
     unfold measure, exec_cost, total_subs.
-    cbn [pending subs lock proc pend_subs cl set_subs set_lock].
+    cbn [pending subs lock proc pend_subs cl cl2 set_subs set_lock].
     rewrite length_upd_nth, Hl. lia.
   - (* ExecPass *)
     destruct (lock s) as [|v idx] eqn:Hl; try discriminate.
@@ -422,12 +554,12 @@ Proof.
     destruct (registered b); try discriminate. inv_some.
     assert (Hlt : (idx < length (subs s))%nat) by (apply nth_error_Some; congruence).
     unfold measure, exec_cost, total_subs.
-    cbn [pending subs lock proc pend_subs cl set_lock]. rewrite Hl. lia.
+    cbn [pending subs lock proc pend_subs cl cl2 set_lock]. rewrite Hl. lia.
   - (* ExecEnd *)
     destruct (lock s) as [|v idx] eqn:Hl; try discriminate.
     destruct (nth_error (subs s) idx) as [b|] eqn:Hn; try discriminate. inv_some.
     unfold measure, exec_cost, total_subs.
-    cbn [pending subs lock proc pend_subs cl set_lock set_proc]. rewrite Hl. lia.
+    cbn [pending subs lock proc pend_subs cl cl2 set_lock set_proc]. rewrite Hl. lia.
   - (* FwdTake *) eapply measure_with_sub; eauto. intros b b' Hg; cbv beta in Hg.
     destruct (fwd b) eqn:Hf; try discriminate. destruct (buf b) eqn:Hb; try discriminate.
     inv_some. unfold sub_cost. cbn [buf fwd closed_seen sb_buf sb_fwd]. rewrite Hf, Hb. cbn. lia.
@@ -457,7 +589,7 @@ Proof.
     destruct (nth_error (pend_subs s) j) as [[id p]|] eqn:Hn; try discriminate. inv_some.
     apply length_remove_nth in Hn.
     unfold measure, exec_cost, total_subs.
-    cbn [pending subs lock proc pend_subs cl set_subs set_pend_subs].
+    cbn [pending subs lock proc pend_subs cl cl2 set_subs set_pend_subs].
     rewrite Hl, map_app, list_sum_app, app_length. cbn [length map list_sum].
     assert (sub_cost (if closed s then dropped_sub p (length (fanout s))
                       else new_sub p (length (fanout s))) <= 3)%nat
@@ -469,15 +601,36 @@ Proof.
   - (* CloseLoopDone *)
     destruct (cl s) eqn:Hcl; try discriminate. destruct (proc s) eqn:Hp; try discriminate.
     inv_some. unfold measure, exec_cost, total_subs.
-    cbn [pending subs lock proc pend_subs cl set_cl set_loop_dead]. rewrite Hcl, Hp. cbn. lia.
+    cbn [pending subs lock proc pend_subs cl cl2 set_cl set_loop_dead]. rewrite Hcl, Hp. cbn. lia.
   - (* CloseLock *)
     destruct (cl s) eqn:Hcl; try discriminate. destruct (lock s) eqn:Hl; try discriminate.
     inv_some. unfold measure, exec_cost, total_subs.
-    cbn [pending subs lock proc pend_subs cl set_cl set_closed]. rewrite Hcl, Hl. cbn. lia.
+    cbn [pending subs lock proc pend_subs cl cl2 set_cl set_closed]. rewrite Hcl, Hl. cbn. lia.
   - (* CloseWait *)
     destruct (cl s) eqn:Hcl; try discriminate. destruct (forallb _ _); try discriminate.
     inv_some. unfold measure, exec_cost, total_subs.
-    cbn [pending subs lock proc pend_subs cl set_cl]. rewrite Hcl. cbn. lia.
+    cbn [pending subs lock proc pend_subs cl cl2 set_cl]. rewrite Hcl. cbn. lia.
+  - (* Close2LoopDone *)
+    destruct (nth_error (cl2 s) j) as [[id c]|] eqn:Hn; try discriminate.
+    destruct c; try discriminate. destruct (loop_dead s); try discriminate. inv_some.
+    pose proof (list_sum_upd_nth (fun e : Z * close2pc => close2_cost (snd e)) j _
+                  (id, K2WantLock) (cl2 s) Hn) as Hsum. cbn [snd close2_cost] in Hsum.
+    unfold measure, exec_cost, total_subs.
+    cbn [pending subs lock proc pend_subs cl cl2 set_cl2]. lia.
+  - (* Close2Lock *)
+    destruct (nth_error (cl2 s) j) as [[id c]|] eqn:Hn; try discriminate.
+    destruct c; try discriminate. destruct (lock s) eqn:Hl; try discriminate. inv_some.
+    pose proof (list_sum_upd_nth (fun e : Z * close2pc => close2_cost (snd e)) j _
+                  (id, K2WaitFwd) (cl2 s) Hn) as Hsum. cbn [snd close2_cost] in Hsum.
+    unfold measure, exec_cost, total_subs.
+    cbn [pending subs lock proc pend_subs cl cl2 set_cl2 set_closed]. rewrite Hl. lia.
+  - (* Close2Wait *)
+    destruct (nth_error (cl2 s) j) as [[id c]|] eqn:Hn; try discriminate.
+    destruct c; try discriminate. destruct (forallb _ _); try discriminate. inv_some.
+    pose proof (list_sum_upd_nth (fun e : Z * close2pc => close2_cost (snd e)) j _
+                  (id, K2Returned) (cl2 s) Hn) as Hsum. cbn [snd close2_cost] in Hsum.
+    unfold measure, exec_cost, total_subs.
+    cbn [pending subs lock proc pend_subs cl cl2 set_cl2]. lia.
 Qed.
 
 (* ---------------------------------------------------------------------------------------- *)
@@ -489,7 +642,7 @@ Definition wedged (s : st) : Prop :=
   exists v idx b,
     lock s = Exec v idx /\ proc s = PCall v /\ nth_error (subs s) idx = Some b /\
     registered b = true /\ fwd b = ExitWantLock /\ (bufcap <= length (buf b))%nat /\
-    closed s = false /\ cl s = CWaitLoop.
+    closed s = false /\ cl s = CWaitLoop /\ loop_dead s = false.
 
 Lemma with_sub_at s i g s' idx b :
   with_sub s i g = Some s' -> nth_error (subs s) idx = Some b ->
@@ -507,7 +660,7 @@ Qed.
 (* NO event — of the environment or of the batcher — leads out of a wedged state *)
 Lemma wedged_step iv s e s' : wedged s -> step Original iv s e = Some s' -> wedged s'.
 Proof.
-  intros (v & idx & b & Hl & Hp & Hn & Hreg & Hf & Hfull & Hc & Hcl) Hs.
+  intros (v & idx & b & Hl & Hp & Hn & Hreg & Hf & Hfull & Hc & Hcl & Hld) Hs.
   assert (Hsub : forall i g, with_sub s i g = Some s' ->
             (forall b2, g b = Some b2 ->
                registered b2 = true /\ fwd b2 = ExitWantLock /\ buf b2 = buf b) ->
@@ -540,6 +693,17 @@ Proof.
   - (* CloseLoopDone *) rewrite Hcl, Hp in Hs. discriminate.
   - (* CloseLock *) rewrite Hcl in Hs. discriminate.
   - (* CloseWait *) rewrite Hcl in Hs. discriminate.
+  - (* Close2Call: a further Close call just joins the wait *)
+    rewrite Hcl in Hs. inv_some. exists v, idx, b. cbn. repeat split; auto.
+  - (* Close2LoopDone *) rewrite Hld in Hs.
+    destruct (nth_error (cl2 s) j) as [[id [| | |]]|]; discriminate.
+  - (* Close2Lock *) rewrite Hl in Hs.
+    destruct (nth_error (cl2 s) j) as [[id [| | |]]|]; discriminate.
+  - (* Close2Wait *)
+    destruct (nth_error (cl2 s) j) as [[id [| | |]]|]; try discriminate.
+    destruct (forallb (fun b0 => is_exited (fwd b0)) (subs s)) eqn:Hall; [|discriminate].
+    rewrite forallb_forall in Hall. specialize (Hall b (nth_error_In _ _ Hn)).
+    rewrite Hf in Hall. discriminate.
 Qed.
 
 Lemma wedged_forever iv s es s' : wedged s -> run Original iv s es = Some s' -> wedged s'.
@@ -590,6 +754,7 @@ Definition wedgedb (s : st) : bool :=
                   && match fwd b with ExitWantLock => true | _ => false end
                   && (bufcap <=? length (buf b))%nat && negb (closed s)
                   && match cl s with CWaitLoop => true | _ => false end
+                  && negb (loop_dead s)
       | None => false
       end
   | _, _ => false
@@ -607,7 +772,8 @@ Proof.
   destruct (fwd b) eqn:Hf; try discriminate. cbn [andb] in H.
   destruct (bufcap <=? length (buf b))%nat eqn:Hb; [|discriminate]. cbn [andb] in H.
   destruct (closed s) eqn:Hc; [discriminate|]. cbn [andb negb] in H.
-  destruct (cl s) eqn:Hcl; try discriminate.
+  destruct (cl s) eqn:Hcl; try discriminate. cbn [andb] in H.
+  destruct (loop_dead s) eqn:Hld; [discriminate|].
   exists v', idx, b. repeat split; auto; apply Nat.leb_le; auto.
 Qed.
 
@@ -632,7 +798,7 @@ Proof.
     { revert Hr. vm_compute. intros Hr; inversion Hr; reflexivity. }
     rewrite forallb_forall in Hall. exact Hall. }
   intros es' s' Hr'. apply wedgedb_sound in H.
-  destruct (wedged_forever _ _ _ _ H Hr') as (v & idx & b & Hl & _ & _ & _ & _ & _ & _ & Hcl).
+  destruct (wedged_forever _ _ _ _ H Hr') as (v & idx & b & Hl & _ & _ & _ & _ & _ & _ & Hcl & _).
   split; auto. congruence.
 Qed.
 
@@ -647,26 +813,25 @@ Proof. vm_compute. reflexivity. Qed.
 (* ---------------------------------------------------------------------------------------- *)
 (* Close is clean *)
 
-(* Once Close has returned: the batcher is closed, the queue loop is gone, nothing is in progress,
-   every forwarder has exited and deregistered, and the channel of every subscription that was
-   accepted has been closed. *)
+(* Once ANY Close call — the first or a later, overlapping or subsequent one — has returned: the
+   batcher is closed, the queue loop is gone, nothing is in progress, every forwarder has exited
+   and deregistered, and the channel of every subscription that was accepted has been closed. *)
 Theorem close_clean : forall vr iv s,
-  reachable vr iv s -> cl s = CReturned ->
+  reachable vr iv s -> any_returned s ->
   closed s = true /\ loop_dead s = true /\ proc s = PIdle /\ lock s = Free /\
   forall b, In b (subs s) ->
     fwd b = Exited /\ registered b = false /\ (accepted b = true -> user_closed b = true).
 Proof.
-  intros vr iv s HR Hcl. pose proof (inv_reachable _ _ _ HR) as [HS HC HD HQ HId HL HRet].
-  assert (Hc : closed s = true) by (apply HC; auto).
-  assert (Hd : loop_dead s = true) by (apply HD; auto).
-  assert (Hp : proc s = PIdle) by auto.
+  intros vr iv s HR Hret. pose proof (inv_reachable _ _ _ HR) as [HC HS HRet].
+  assert (Hc : closed s = true) by (apply returned_closed; auto).
+  assert (Hd : loop_dead s = true) by (apply (c_cdead _ HC); auto).
+  assert (Hp : proc s = PIdle) by (apply (c_idle _ HC); auto).
+  specialize (HRet Hret). unfold all_exited in HRet. rewrite Forall_forall in HRet, HS.
   repeat split; auto.
-  - destruct (lock s) as [|v idx] eqn:Hl; auto. specialize (HL _ _ eq_refl). congruence.
-  - specialize (HRet Hcl). rewrite Forall_forall in HRet. auto.
-  - specialize (HRet Hcl). rewrite Forall_forall in HRet, HS.
-    destruct (HS b H) as (_ & H2 & _). auto.
-  - specialize (HRet Hcl). rewrite Forall_forall in HRet, HS.
-    destruct (HS b H) as (_ & _ & H3). auto.
+  - destruct (lock s) as [|v idx] eqn:Hl; auto.
+    pose proof (c_lock _ HC _ _ Hl). congruence.
+  - destruct (HS b H) as (_ & H2 & _). auto.
+  - destruct (HS b H) as (_ & _ & H3). auto.
 Qed.
 
 (* what subscriber i has received so far ([] if there is no such subscriber) *)
@@ -676,7 +841,7 @@ Definition recv_of (s : st) (i : nat) : list val :=
 Lemma frozen_with_sub s i g s' :
   with_sub s i g = Some s' ->
   (forall b b', nth_error (subs s) i = Some b -> g b = Some b' -> received b' = received b) ->
-  cl s' = cl s /\ fanout s' = fanout s /\ forall j, recv_of s' j = recv_of s j.
+  cl s' = cl s /\ cl2 s' = cl2 s /\ fanout s' = fanout s /\ forall j, recv_of s' j = recv_of s j.
 Proof.
   intros Hw Hg. apply with_sub_inv in Hw as (b & b' & Hn & Hgb & ->).
   repeat split; auto. intros j. unfold recv_of. cbn [subs set_subs].
@@ -685,22 +850,38 @@ Proof.
   - rewrite nth_error_upd_nth_ne; auto.
 Qed.
 
+Lemma any_returned_same s s' : cl s' = cl s -> cl2 s' = cl2 s -> any_returned s -> any_returned s'.
+Proof. unfold any_returned. intros -> ->. auto. Qed.
+
 Lemma close_frozen_step vr iv s e s' :
-  reachable vr iv s -> cl s = CReturned -> step vr iv s e = Some s' ->
-  cl s' = CReturned /\ fanout s' = fanout s /\ forall i, recv_of s' i = recv_of s i.
+  reachable vr iv s -> any_returned s -> step vr iv s e = Some s' ->
+  any_returned s' /\ fanout s' = fanout s /\ forall i, recv_of s' i = recv_of s i.
 Proof.
-  intros HR Hcl Hs.
-  destruct (close_clean _ _ _ HR Hcl) as (Hc & Hd & Hp & Hl & Hsubs).
+  intros HR Hret Hs.
+  destruct (close_clean _ _ _ HR Hret) as (Hc & Hd & Hp & Hl & Hsubs).
   assert (Hex : forall i b, nth_error (subs s) i = Some b -> fwd b = Exited).
   { intros i b Hn. apply nth_error_In in Hn. apply Hsubs; auto. }
-  rewrite <- Hcl.
+  assert (Hws : forall i g,
+            with_sub s i g = Some s' ->
+            (forall b b', nth_error (subs s) i = Some b -> g b = Some b' ->
+                          received b' = received b) ->
+            any_returned s' /\ fanout s' = fanout s /\ forall i, recv_of s' i = recv_of s i).
+  { intros i g Hw Hg. destruct (frozen_with_sub _ _ _ _ Hw Hg) as (E1 & E2 & E3 & E4).
+    split; [eapply any_returned_same; eauto|auto]. }
+  (* a Close program counter moves: the returned one stays returned *)
+  assert (Hmove : forall j id c c', nth_error (cl2 s) j = Some (id, c) -> c <> K2Returned ->
+            any_returned (set_cl2 s (upd_nth j (id, c') (cl2 s)))).
+  { intros j id c c' Hn Hne. destruct Hret as [H|[id0 H]]; [left; exact H|right].
+    exists id0. cbn. eapply In_upd_nth_keep; eauto. congruence. }
   destruct e; unfold step in Hs;
-    try (eapply frozen_with_sub; [exact Hs|]; intros b b' Hn Hg; cbv beta in Hg;
+    try (eapply Hws; [exact Hs|]; intros b b' Hn Hg; cbv beta in Hg;
          rewrite ?(Hex _ _ Hn) in Hg; try discriminate; inversion Hg; subst; reflexivity).
   - (* Batch *) destruct (qstopped s); inv_some; auto.
   - (* Advance *) destruct (d <? 0)%Z; [discriminate|]. inv_some. auto.
   - (* SubscribeCall *) inv_some. auto.
-  - (* CloseCall *) rewrite Hcl in Hs. discriminate.
+  - (* CloseCall *) destruct (cl s) eqn:Hcl; try discriminate. inv_some.
+    pose proof (c_cl2 _ (i_ctl _ _ (inv_reachable _ _ _ HR)) Hcl) as E.
+    destruct Hret as [H|[id H]]; [congruence|]. rewrite E in H. destruct H.
   - (* Pop *) rewrite Hp, Hd in Hs. discriminate.
   - (* ExecBegin *) rewrite Hp in Hs. discriminate.
   - rewrite Hl in Hs. discriminate.
@@ -708,9 +889,9 @@ Proof.
   - rewrite Hl in Hs. discriminate.
   - rewrite Hl in Hs. discriminate.
   - (* FwdExitLocked *) rewrite Hl in Hs.
-    eapply frozen_with_sub; [exact Hs|]. intros b b' Hn Hg; cbv beta in Hg.
+    eapply Hws; [exact Hs|]. intros b b' Hn Hg; cbv beta in Hg.
     rewrite (Hex _ _ Hn) in Hg. discriminate.
-  - (* ConsSeeClosed *) eapply frozen_with_sub; [exact Hs|]. intros b b' Hn Hg; cbv beta in Hg.
+  - (* ConsSeeClosed *) eapply Hws; [exact Hs|]. intros b b' Hn Hg; cbv beta in Hg.
     destruct (_ && _); [|discriminate]. inversion Hg; subst; reflexivity.
   - (* SubscribeLocked: only silently dropped subscriptions are added *)
     rewrite Hl in Hs. destruct (nth_error (pend_subs s) j) as [[id p]|]; [|discriminate].
@@ -720,16 +901,37 @@ Proof.
     + rewrite nth_error_app2; auto.
       assert (nth_error (subs s) i = None) as -> by (apply nth_error_None; auto).
       destruct (i - length (subs s))%nat as [|n]; cbn; auto. destruct n; reflexivity.
-  - rewrite Hcl in Hs. discriminate.
-  - rewrite Hcl in Hs. discriminate.
-  - rewrite Hcl in Hs. discriminate.
+  - (* CloseLoopDone *) destruct (cl s) eqn:Hcl; try discriminate.
+    destruct (proc s); try discriminate. inv_some.
+    destruct Hret as [H|H]; [congruence|]. split; [right; exact H|auto].
+  - (* CloseLock *) destruct (cl s) eqn:Hcl; try discriminate.
+    destruct (lock s); try discriminate. inv_some.
+    destruct Hret as [H|H]; [congruence|]. split; [right; exact H|auto].
+  - (* CloseWait *) destruct (cl s) eqn:Hcl; try discriminate.
+    destruct (forallb _ _); try discriminate. inv_some. split; [left; reflexivity|auto].
+  - (* Close2Call *) destruct (cl s) eqn:Hcl; try discriminate; inv_some;
+      (split; [|auto]); (destruct Hret as [H|[id0 H]]; [left; exact H|right; exists id0; cbn;
+        apply in_or_app; auto]).
+  - (* Close2LoopDone *)
+    destruct (nth_error (cl2 s) j) as [[id c]|] eqn:Hn; try discriminate.
+    destruct c; try discriminate. destruct (loop_dead s); try discriminate. inv_some.
+    split; [eapply Hmove; eauto; discriminate|auto].
+  - (* Close2Lock *)
+    destruct (nth_error (cl2 s) j) as [[id c]|] eqn:Hn; try discriminate.
+    destruct c; try discriminate. rewrite Hl in Hs. inv_some.
+    split; [|auto]. eapply any_returned_same; [| |eapply (Hmove j id K2WantLock K2WaitFwd); eauto; discriminate]; reflexivity.
+  - (* Close2Wait *)
+    destruct (nth_error (cl2 s) j) as [[id c]|] eqn:Hn; try discriminate.
+    destruct c; try discriminate. destruct (forallb _ _); try discriminate. inv_some.
+    split; [eapply Hmove; eauto; discriminate|auto].
 Qed.
 
-(* After Close has returned, NO continuation — further Batch / Subscribe calls, clock advances,
-   reads, cancellations, in any order — fans anything out or makes any consumer receive anything. *)
+(* After a Close call has returned, NO continuation — further Batch / Subscribe / Close calls, clock
+   advances, reads, cancellations, in any order — fans anything out or makes any consumer receive
+   anything. *)
 Theorem close_frozen : forall vr iv es s s',
-  reachable vr iv s -> cl s = CReturned -> run vr iv s es = Some s' ->
-  cl s' = CReturned /\ fanout s' = fanout s /\ forall i, recv_of s' i = recv_of s i.
+  reachable vr iv s -> any_returned s -> run vr iv s es = Some s' ->
+  any_returned s' /\ fanout s' = fanout s /\ forall i, recv_of s' i = recv_of s i.
 Proof.
   intros vr iv es. induction es as [|e r IH]; cbn; intros s s' HR Hcl H.
   - inversion H; subst; auto.
@@ -781,13 +983,13 @@ Proof.
   { intros i g Hw. apply with_sub_inv in Hw as (b & _ & Hn & _). apply in_seq. split; [lia|].
     cbn. apply nth_error_Some. congruence. }
   destruct e; try discriminate Hint; unfold step in Hs; rewrite !in_app_iff.
-  - (* Pop *) do 5 right.
+  - (* Pop *) do 7 right.
     destruct (proc s); try discriminate. destruct (loop_dead s); try discriminate.
     unfold plookup in Hs.
     destruct (find (fun e => (fst e =? k)%Z) (pending s)) as [e|] eqn:Hf; try discriminate.
     apply find_some in Hf as [Hin Hk]. apply Z.eqb_eq in Hk. subst k.
     apply in_map_iff. exists e; auto.
-  - do 4 right; left. cbn; auto.
+  - do 6 right; left. cbn; auto.
   - left. cbn; auto.
   - left. cbn; auto.
   - left. cbn; auto.
@@ -804,6 +1006,15 @@ Proof.
   - do 4 right; left. cbn; auto.
   - do 4 right; left. cbn; auto.
   - do 4 right; left. cbn; auto.
+  - do 5 right; left. apply in_flat_map. exists j. split; [|cbn; auto].
+    destruct (nth_error (cl2 s) j) eqn:Hn; try discriminate.
+    apply in_seq. split; [lia|]. cbn. apply nth_error_Some. congruence.
+  - do 5 right; left. apply in_flat_map. exists j. split; [|cbn; auto].
+    destruct (nth_error (cl2 s) j) eqn:Hn; try discriminate.
+    apply in_seq. split; [lia|]. cbn. apply nth_error_Some. congruence.
+  - do 5 right; left. apply in_flat_map. exists j. split; [|cbn; auto].
+    destruct (nth_error (cl2 s) j) eqn:Hn; try discriminate.
+    apply in_seq. split; [lia|]. cbn. apply nth_error_Some. congruence.
 Qed.
 
 Lemma candidates_internal s e : In e (candidates s) -> internal e = true.
@@ -815,6 +1026,9 @@ Proof.
     repeat (destruct H as [<-|H]; [reflexivity|]). destruct H.
   - apply in_map_iff in H as (i & <- & _). reflexivity.
   - apply in_map_iff in H as (i & <- & _). reflexivity.
+  - cbn in H. repeat (destruct H as [<-|H]; [reflexivity|]). destruct H.
+  - apply in_flat_map in H as (i & _ & H). cbn in H.
+    repeat (destruct H as [<-|H]; [reflexivity|]). destruct H.
   - cbn in H. repeat (destruct H as [<-|H]; [reflexivity|]). destruct H.
   - apply in_map_iff in H as (i & <- & _). reflexivity.
 Qed.
@@ -861,3 +1075,21 @@ Proof.
   destruct (quiesce_fuel_spec Fixed iv (measure s) s HR (le_n _)) as [H1 H2].
   split; auto. apply (no_wedge iv); auto.
 Qed.
+
+(* two overlapping Close calls while a delivery is blocked on a live stalled subscriber: neither
+   returns (first: K... CWaitLoop, second: K2WaitLoop) until the subscriber goes away; then BOTH
+   return, with the channel closed (non-vacuity of [any_returned] through a later Close call) *)
+Example close2_example :
+  let env1 := SubscribeCall 0%Z false
+              :: flat_map (fun n => [Batch 0%Z (Z.of_nat n); Advance 2%Z]) (seq 1 52)
+              ++ [CloseCall; Close2Call 7%Z] in
+  match run Fixed 2%Z init (sched Fixed 2%Z init env1),
+        run Fixed 2%Z init (sched Fixed 2%Z init (env1 ++ [Cancel 0])) with
+  | Some s1, Some s2 =>
+      match cl s1, cl2 s1, cl s2, cl2 s2 with
+      | CWaitLoop, [(_, K2WaitLoop)], CReturned, [(_, K2Returned)] => forallb user_closed (subs s2)
+      | _, _, _, _ => false
+      end
+  | _, _ => false
+  end = true.
+Proof. vm_compute. reflexivity. Qed.
